@@ -244,6 +244,11 @@ def units(tier):
     # rests on them
     from contracts import C19
     U += [u for u in C19.validator_units(tier) if u.name.startswith('ensure_1d_with_singleton[')]
+    # the masked extraction of layer k is called with the documented mask frequency and the documented amplitude of that layer (absolute /
+    # ratio of the input / ratio of the previous IMF): the C07 units of mask_sift, re-run here because "component k is the masked extraction of
+    # the running residual" says nothing until the mask it is extracted with is pinned down
+    from contracts import C07
+    U += [u for u in C07.units(tier) if u.name.startswith('mask_sift[')]
     return U
 
 
